@@ -6,7 +6,7 @@ UNIT = dict(
     pre_includes=['spec.h'],
     sources=['harness.c'],
     extern=['pa_tree_insert', 'pa_treeb_remove', 'pa_treeb_first', 'pu_tree_insert', 'pu_treeb_remove', 'pu_treeb_first'],
-    lower_opts=dict(access_hooks=['pa_freelist', 'pa_frame', 'pa_slab_frame', 'pu_freelist', 'pu_frame', 'pu_slab_frame']),
+    lower_opts=dict(access_hooks=['pa_freelist', 'pa_frame', 'pa_slab_frame', 'pa_bucket', 'pu_freelist', 'pu_frame', 'pu_slab_frame', 'pu_bucket']),
     assumptions=['the per-bucket partial tree is replaced by its contract (an address-ordered set of at most two slabs); the rbtree itself is checked in C06',
                  'policy stub: map returns 0 (nondeterministically, at every call) or the address of a fresh object of the requested length; unmap gives it back; poison hooks drive a ghost poison state of one tracked block and one tracked header',
                  'mutex stub records ownership only (the property grants a correct mutex); no interleavings are explored',
